@@ -24,32 +24,32 @@ import (
 //verif:include ../db/zz_verif_world.go
 //verif:subst H01_res github.com/facebookincubator/dns/dnsrocks/dnsserver.typeToStatsKey github.com/facebookincubator/dns/dnsrocks/dnsserver.VerifStatsKeyStub
 //verif:subst H01_nested github.com/facebookincubator/dns/dnsrocks/dnsserver.typeToStatsKey github.com/facebookincubator/dns/dnsrocks/dnsserver.VerifStatsKeyStub
-//verif:harness H01_res property=C01 native=no quick=k=1,layout=0;k=1,layout=2 thorough=k=1,layout=1;k=2,layout=2;k=2,layout=0
+//verif:harness H01_res property=C01 native=no quick=k=1,layout=0,pool=24;k=1,layout=2,pool=24 thorough=k=1,layout=1,pool=24;k=2,layout=2,pool=9;k=2,layout=0,pool=9
 //verif:harness H01_nested property=C01 native=no quick=layout=2,extra=0;layout=0,extra=0 thorough=layout=1,extra=0;layout=2,extra=1;layout=0,extra=1
 
 func verifC01Pool() []dnsdata.VerifRec {
 	return []dnsdata.VerifRec{
 		{Kind: '+', Dom: []byte("c.z"), TTL: 300, IP: []byte{192, 0, 2, 10}, Weight: 1},
 		{Kind: '+', Dom: []byte("c.z"), TTL: 301, IP: []byte{192, 0, 2, 11}, Weight: 1, Loc: verifL1},
-		{Kind: '\'', Dom: []byte("c.z"), TTL: 302, Txt: []byte("t-c")},
+		{Kind: '\'', Dom: []byte("c.z"), DefTTL: true, Txt: []byte("t-c")},
 		{Kind: 'C', Dom: []byte("g.c.z"), TTL: 303, Target: []byte("c.z")},
 		{Kind: '+', Dom: []byte("z"), Wild: true, TTL: 304, IP: []byte{192, 0, 2, 14}, Weight: 1},
 		{Kind: '\'', Dom: []byte("z"), Wild: true, TTL: 305, Txt: []byte("w-z-L1"), Loc: verifL1},
 		{Kind: '+', Dom: []byte("c.z"), Wild: true, TTL: 306, IP: []byte{192, 0, 2, 16}, Weight: 1},
-		{Kind: '&', Dom: []byte("c.z"), TTL: 307, Target: []byte("ns.c.z"), IP: []byte{192, 0, 2, 53}},
-		{Kind: '@', Dom: []byte("s.z"), TTL: 308, Target: []byte("mx.s.z"), Dist: 5, IP: []byte{192, 0, 2, 25}},
+		{Kind: '&', Dom: []byte("c.z"), DefTTL: true, Target: []byte("ns.c.z"), IP: []byte{192, 0, 2, 53}},
+		{Kind: '@', Dom: []byte("s.z"), DefTTL: true, Target: []byte("mx.s.z"), Dist: 5, IP: []byte{192, 0, 2, 25}},
 		{Kind: '\'', Dom: []byte("g.c.z"), TTL: 309, Txt: []byte("t-g")},
-		{Kind: '+', Dom: []byte("s.z"), TTL: 310, IP: []byte{192, 0, 2, 20}, Weight: 1},
+		{Kind: '+', Dom: []byte("s.z"), DefTTL: true, IP: []byte{192, 0, 2, 20}, Weight: 1},
 		{Kind: '\'', Dom: []byte("c.z"), Wild: true, TTL: 311, Txt: []byte("w-c")},
 		{Kind: 'C', Dom: []byte("z"), Wild: true, TTL: 312, Target: []byte("c.z")},
 		{Kind: '+', Dom: []byte("z"), TTL: 313, IP: []byte{192, 0, 2, 1}, Weight: 1},
 		{Kind: '.', Dom: []byte("s.z"), TTL: 314, Target: []byte("ns.s.z"), IP: []byte{192, 0, 2, 54}, Loc: verifL1},
-		{Kind: '.', Dom: []byte("g.c.z"), TTL: 315, Target: []byte("ns.g.c.z"), IP: []byte{192, 0, 2, 55}},
+		{Kind: '.', Dom: []byte("g.c.z"), DefTTL: true, Target: []byte("ns.g.c.z"), IP: []byte{192, 0, 2, 55}},
 		{Kind: '&', Dom: []byte("z"), TTL: 316, Target: []byte("ns2.z"), IP: []byte{192, 0, 2, 3}, Loc: verifL1}, // a located NS at the apex next to the untagged SOA
 		// the remaining record types, one each
 		{Kind: '+', Dom: []byte("c.z"), TTL: 317, IP: []byte{0x20, 0x01, 0x0d, 0xb8, 0, 0, 0, 0, 0, 0, 0, 0, 0, 0, 0, 0x17}, Weight: 1},
 		{Kind: 'S', Dom: []byte("v.z"), TTL: 318, Target: []byte("sv.v.z"), IP: []byte{192, 0, 2, 18}, Rtype: 8443, Dist: 7, Weight: 9},
-		{Kind: '^', Dom: []byte("p.z"), TTL: 319, Target: []byte("host.z")},
+		{Kind: '^', Dom: []byte("p.z"), DefTTL: true, Target: []byte("host.z")},
 		{Kind: '=', Dom: []byte("e.z"), TTL: 320, IP: []byte{192, 0, 2, 33}},
 		{Kind: ':', Dom: []byte("x.z"), TTL: 321, Rtype: 0xff01, Txt: []byte("ab")},
 		{Kind: 'H', Dom: []byte("h.z"), TTL: 322, Target: []byte("t.z"), Dist: 1, Txt: []byte("alpn=h2")},
@@ -99,6 +99,13 @@ func refFlatten(recs []dnsdata.VerifRec) []refRR {
 	}
 	for _, r := range recs {
 		o := refWire(r.Dom)
+		if r.DefTTL {
+			// tinydns-data defaults: 259200 for name-server lines (and their glue), 86400 otherwise
+			r.TTL = 86400
+			if r.Kind == '&' || r.Kind == '.' {
+				r.TTL = 259200
+			}
+		}
 		switch r.Kind {
 		case 'Z':
 			out = append(out, refRR{o, false, dns.TypeSOA, fmt.Sprintf("SOA %d", r.TTL), r.Loc})
@@ -311,8 +318,14 @@ func H01_res() {
 	recs := []dnsdata.VerifRec{
 		{Kind: '.', Dom: []byte("z"), TTL: 2560, Target: []byte("ns.z"), IP: []byte{192, 0, 2, 2}},
 	}
+	// bound: with k > 1 the records come from the first `pool` entries (addresses, TXT, CNAME,
+	// the delegation, the wildcards at both levels, MX)
+	np := nd.Param("pool")
+	if np > len(pool) {
+		np = len(pool)
+	}
 	for i := 0; i < k; i++ {
-		recs = append(recs, pool[nd.Choice(len(pool))])
+		recs = append(recs, pool[nd.Choice(np)])
 	}
 	verifC01Run(recs, layout)
 }
